@@ -45,6 +45,23 @@ func (e *Engine) checkEntityRaw(s *Sys, me *MEnt, _ string) *Violation {
 		return e.v(s, "compset", "entity %v: Mask reports %v (foreign=%v), model has %v", h, listOf(set), foreign, listOf(me.Cs))
 	}
 	ids := w.Ids(h)
+	if len(ids) > 1 && (e.step+int(h.ID()))%3 == 0 {
+		// "the result can be manipulated safely": do what a caller filtering the list in place does, and look again
+		first := append([]ecs.ID{}, ids...)
+		for i := range ids {
+			ids[i] = ids[len(ids)-1]
+		}
+		ids = append(ids[:0], first[len(first)-1])
+		again := w.Ids(h)
+		same := len(again) == len(first)
+		for i := 0; same && i < len(first); i++ {
+			same = again[i] == first[i]
+		}
+		if !same {
+			return e.v(s, "compset", "entity %v: World.Ids reports other IDs after the slice it returned before was written to (it is documented as a copy)", h)
+		}
+		ids = first
+	}
 	iset, dup, f2 := s.idsToSet(ids)
 	if dup || f2 || iset != me.Cs {
 		return e.v(s, "compset", "entity %v: Ids reports %v, model has %v", h, listOf(iset), listOf(me.Cs))
